@@ -257,6 +257,7 @@ func (p *c12) exec(t *testing.T, scAny any) Outcome {
 		return out
 	}
 	full := base.sink.Accepted
+	out.Digest = hashKey(string(base.sink.data))
 	out.Key = fmt.Sprintf("%s|%d|%v", sc.Msg.Token, full, sc.Mode)
 	out.Nontrivial = true
 	evals := 1
